@@ -309,6 +309,9 @@ func (w *World) argsAndReply(c *CallRec) (args, reply interface{}) {
 		m.ID = badMarshalID
 	}
 	c.reply = &Msg{ID: ^c.ID, Server: sentinelServer}
+	if c.Flags&FlEmpty != 0 {
+		c.reply = &Msg{} // the reply will be the zero message: start from a zero object, as users do
+	}
 	switch w.P.Codec {
 	case "pb":
 		if c.Bad == "args" {
@@ -365,6 +368,14 @@ func (w *World) checkReply(c *CallRec) {
 			c.ReplyTouched = string(*c.replyB) != "sentinel"
 			return
 		}
+		if c.Flags&FlEmpty != 0 {
+			if len(*c.replyB) == 0 {
+				c.ReplyOK = true
+			} else {
+				c.ReplyWhy = fmt.Sprintf("the handler returned the empty message, the reply has %d bytes", len(*c.replyB))
+			}
+			return
+		}
 		var m Msg
 		if _, err := m.get(*c.replyB); err != nil {
 			c.ReplyWhy = "reply bytes do not decode: " + err.Error()
@@ -375,10 +386,22 @@ func (w *World) checkReply(c *CallRec) {
 	} else {
 		got = c.reply
 		if c.Err != "" {
-			c.ReplyTouched = got.ID != ^c.ID || got.Server != sentinelServer || got.Pad != nil || got.N != 0 || got.Flags != 0
+			if c.Flags&FlEmpty != 0 {
+				c.ReplyTouched = !got.isZero()
+			} else {
+				c.ReplyTouched = got.ID != ^c.ID || got.Server != sentinelServer || got.Pad != nil || got.N != 0 || got.Flags != 0
+			}
 			return
 		}
 		w.retain(got.Pad, "reply-pad", c.ID)
+	}
+	if c.Flags&FlEmpty != 0 {
+		if got.isZero() {
+			c.ReplyOK = true
+		} else {
+			c.ReplyWhy = fmt.Sprintf("the handler returned the zero message, the reply is {id %d server %d flags %#x pad %d bytes}", got.ID, got.Server, got.Flags, len(got.Pad))
+		}
+		return
 	}
 	switch {
 	case got.ID != c.ID:
